@@ -51,6 +51,8 @@ class Op:
         d = {"kind": self.kind, "path": self.path, "style": self.style, "ctx": self.ctx}
         if self.new_path != self.path:
             d["new_path"] = self.new_path
+        if getattr(self, "fake_rename_from", None):
+            d["rename_from_a_name_that_is_gone"] = self.fake_rename_from
         if self.poison:
             d["poison"] = self.poison
             d["failing_hunks"] = self.failing
@@ -176,6 +178,11 @@ def render_op(op, strip, reverse, git, rnd):
         pre, post = post, pre
         pre_mode, post_mode = post_mode, pre_mode
         src_path, dst_path = dst_path, src_path
+    fake_from = getattr(op, "fake_rename_from", None)
+    if fake_from and not reverse:
+        src_path = fake_from
+    else:
+        fake_from = None
     a = split_lines(pre or b"")
     b = split_lines(post or b"")
     hunks = diff_hunks(a, b, op.ctx)
@@ -206,7 +213,7 @@ def render_op(op, strip, reverse, git, rnd):
             out.append(b"deleted file mode %06o\n" % (0o100000 | pre_mode))
         elif pre is not None and post is not None and pre_mode != post_mode:
             out.append(b"old mode %06o\nnew mode %06o\n" % (0o100000 | pre_mode, 0o100000 | post_mode))
-        if op.kind == "rename":
+        if op.kind == "rename" or fake_from:
             out.append(b"rename from " + src_path.encode("utf-8", "surrogateescape") + b"\nrename to " + dst_path.encode("utf-8", "surrogateescape") + b"\n")
         if rnd.random() < 0.5:
             out.append(b"index %07x..%07x%s\n" % (rnd.getrandbits(28), rnd.getrandbits(28), b" 100644" if rnd.random() < 0.5 and pre_mode == post_mode else b""))
@@ -229,6 +236,9 @@ def render_op(op, strip, reverse, git, rnd):
             j = idxs[0]
             t, l = h.lines[j]
             tok = b"POISON-%d-%d no such line anywhere" % (rnd.randint(0, 10**6), i)
+            if rnd.random() < 0.5:
+                # the line the file has, extended: the file's line is a proper prefix of what the hunk asks for
+                tok = l.rstrip(b"\n") + b" " + tok
             h.lines[j] = (t, tok + b"\n" if l.endswith(b"\n") else tok)
             failing.append(i)
     elif op.poison in ("missing", "create-over", "delete-mismatch"):
@@ -287,6 +297,7 @@ class GenConfig:
         self.empty_dir_deletes = True
         self.p_second_fail = 0.0     # probability that a patch AFTER the first failing one is poisoned too (it is never reached
                                      # by a sequential push; a parallel push may run ahead into it)
+        self.allow_done_renames = True
         self.p_early_poison = 0.0    # probability that a poisoned file patch may be one that a LATER file patch of the same patch follows
                                      # (same file twice in one patch).  What the later one then does is not known by construction: only for
                                      # checks that need neither the reject set nor the forced result
@@ -403,6 +414,10 @@ def _gen_op(r, work, cfg, git, reverse, touched):
             post = data + (b"" if data.endswith(b"\n") else b"\n") + b"kept too\n"
         op = Op("modify", p, pre=data, post=post, pre_mode=mode, post_mode=mode)
         op.style = "git" if git else "plain"
+        if git and not reverse and cfg.allow_done_renames and r.random() < 0.06:
+            # a git rename whose old name is gone and whose new name is there (the rename was done already): the file under
+            # the new name is patched in place
+            op.fake_rename_from = "formerly/%s-%d" % (os.path.basename(p), r.randint(0, 10**6))
         if not git and cfg.allow_orig and r.random() < 0.15 and (p + ".orig") not in work:
             op.orig_style = True
         work[p] = (post, mode)
@@ -669,6 +684,49 @@ def nest_patch_names(ws, r, patches_dir="patches"):
         new = patches_dir + "/" + base
         if all(q.name != new for q in ws.patches):
             rename(ws.patches[j], new)
+
+
+def add_nested_emptying(ws, r):
+    """A directory with a file and a nested directory with a file (and sometimes one level more); the series deletes all of
+    them, in random patches that apply: the nested directories and then the outer one become empty and must be removed."""
+    limit = ws.fail_at if ws.fail_at is not None else len(ws.patches)
+    if limit == 0:
+        return False
+    top = "nest%d" % r.randint(0, 999)
+    for t in ws.trees:
+        for q in t:
+            if q == top or q.startswith(top + "/"):
+                return False
+    sub = "e%d" % r.randint(0, 99)
+    names = [top + "/g%d.c" % r.randint(0, 99), top + "/" + sub + "/f%d.c" % r.randint(0, 99)]
+    if r.random() < 0.4:
+        names.append(top + "/" + sub + "/h%d/i.txt" % r.randint(0, 99))
+    if r.random() < 0.3:
+        top = "outer/" + top   # one more level that also empties
+        names = ["outer/" + n for n in names]
+        if any(q == "outer" or q.startswith("outer/") for t in ws.trees for q in t):
+            return False
+    content = b"to be\ndeleted\n"
+    where = {}
+    same = r.random() < 0.5
+    one = r.randrange(0, limit)
+    for nm in names:
+        where[nm] = one if same else r.randrange(0, limit)
+    for k, t in enumerate(ws.trees):
+        for nm in names:
+            if k <= where[nm]:
+                t[nm] = (content, DEFAULT_MODE)
+    touched = set()
+    for nm in names:
+        p = ws.patches[where[nm]]
+        o = Op("delete", nm, pre=content, post=None, pre_mode=DEFAULT_MODE, post_mode=None)
+        o.style = "git" if p.git else "devnull"
+        p.ops.insert(r.randint(0, len(p.ops)), o)
+        touched.add(where[nm])
+    for i in touched:
+        render_patch(ws.patches[i], r)
+    ws.t0 = ws.trees[0]
+    return True
 
 
 def add_newdir_reject(ws, r):
